@@ -339,6 +339,12 @@ def check_receive_frame(eng, ctx):
                 if c[0] == 'truth' and c[1][0] == 'call':
                     nm = c[1][1].split('.')[-1]
                     facts[nm] = not neg
+                    arg = c[1][2][-1] if c[1][2] else None
+                    if nm.startswith('_stream_is_closed_by') and not (
+                            arg is not None and arg[0] == 'a' and
+                            arg[2] == 'stream_id' and arg[1][0] == 'exc'):
+                        ok2 = False     # must classify the id that was too
+                        #                 low (e.stream_id), not another one
         if facts.get('_stream_is_closed_by_reset'):
             frames = [e for e in p.events if e.kind == 'new' and
                       e.cls == 'RstStreamFrame']
@@ -348,7 +354,10 @@ def check_receive_frame(eng, ctx):
                 len(cm.calls_to(p, '_prepare_for_sending')) == 1
             if good:
                 f = p.state.objs.get(frames[0].obj, {})
-                good = cm.enum_name(f.get('error_code')) == 'STREAM_CLOSED'
+                sid = f.get('stream_id')
+                good = cm.enum_name(f.get('error_code')) == 'STREAM_CLOSED' \
+                    and sid is not None and sid[0] == 'a' and \
+                    sid[2] == 'stream_id' and sid[1][0] == 'exc'
             kinds.add('reset')
             ok2 = ok2 and good
         elif facts.get('_stream_is_closed_by_end'):
@@ -418,8 +427,8 @@ def check_receive_frame(eng, ctx):
             v = p.value
             if v[0] == 'in' and v[1][0] == 'call' and \
                     v[1][1].endswith('_stream_closed_by') and \
-                    v[2][0] == 'tuple':
-                got = {cm.enum_name(x) for x in v[2][1]}
+                    cm.tuple_items(v[2]) is not None:
+                got = {cm.enum_name(x) for x in cm.tuple_items(v[2])}
                 good = got == members
         ctx.ob('FSM.layer3', f3.qual, 'closed-by classification', good,
                'membership of _stream_closed_by(id) in %s' % sorted(members),
